@@ -303,9 +303,10 @@ def counters_start_at_one(agg):
             elif v[0] == "agg" and v[2].startswith("cactusref::") and depth < 2:
                 walk(v, depth + 1)
     walk(agg, 0)
+    from interp import classify_init
     for fld in ("strong", "weak"):
         v = vals.get(fld)
-        if not (v and v[0] == "call" and v[2] == "core::cell::Cell::<T>::new" and v[3] and is_const(v[3][0], 1)):
+        if not (v and classify_init(v) == "one"):     # Cell::new(1), possibly inside a newtype of the crate
             return False
     return True
 
